@@ -699,7 +699,8 @@ def run(ctx):
             return False
         ctx.validated()
         return True
-    fgood = good and not ctx.broken and not ctx.violations
+    # a broken *proof* obligation (Tie A / theorem) must not keep these programs from running: they are monitors
+    fgood = good and not any(b[0] == "correspondence" for b in ctx.broken) and not ctx.violations
     for fname, sig, expect in FINDINGS:
         if fgood and sig in ctx.known and (fdir / fname).exists():
             c = [l for l in (fdir / fname).read_text().splitlines() if l.strip()]
